@@ -438,7 +438,7 @@ func (s *Sched) pick() *Task {
 	if len(el) == 1 {
 		return el[0]
 	}
-	if s.noPreempt > 0 && s.cur != nil && s.eligible(s.cur) {
+	if s.noPreempt > 0 && s.quiescing == nil && s.cur != nil && s.eligible(s.cur) {
 		return s.cur
 	}
 	if s.fair {
